@@ -154,7 +154,7 @@ contract(PR + "Parser._build_scenario_outline_statement", props=["C04"], params=
          self_classes=["Parser"], callsites=_BUILD_CALLS, modifies=_BUILD_MOD,
          ensures=dict({k: v % "as_ref(self.statement, 'ScenarioOutline')" if "%s" in v else v for k, v in _TAGS_CONSUMED.items()}, **{
              "the-outline-becomes-the-current-statement": "is_fresh(self.statement) and exact_type(self.statement, 'ScenarioOutline')"}))
-contract(PR + "Parser._build_examples", props=["C04", "C05", "C06"], params={"self": "ref:Parser", "keyword": "str", "line": "str"},
+contract(PR + "Parser._build_examples", props=["C04", "C05", "C06", "C09"], params={"self": "ref:Parser", "keyword": "str", "line": "str"},
          self_classes=["Parser"], callsites=_BUILD_CALLS, modifies=_BUILD_MOD + ["list(as_ref(self.statement, 'ScenarioOutline').examples)"],
          raises=[Raises("ParserError", when="not typeof_is(self.statement, 'ScenarioOutline')", label="examples-outside-an-outline",
                         ensures={"reported-at-the-current-line": "exc.line == self.line"})],
@@ -290,3 +290,22 @@ prop("C05", level="other", bounded=[],
      technique="contract-based deductive verification (own VC generator over the real ASTs, z3/cvc5) of parse_tags, action_scenario "
                "and the failure oracle helpers; bounded fault-injection stand-in for the state machine",
      notes=_NOTE)
+
+# -- a (re-used) parser starts every text from scratch: line counter, state machine and pending items -----------------
+shape("I18nModule", languages="dict:dict:seq:str")
+contract(PR + "Parser.reset", props=["C05", "C04"], params={"self": "ref:Parser", "filename": "any"}, self_classes=["Parser"],
+         globals={"i18n": ("singleton", "I18nModule")}, lookup_raises=True, allow_raises=["KeyError"],
+         modifies=["self.language", "self.keywords", "self.state", "self.line", "self.last_step_type", "self.multiline_start",
+                   "self.multiline_leading", "self.multiline_terminator", "self.filename", "self.scenario_container",
+                   "self.feature", "self.rule", "self.parent", "self.statement", "self.tags", "self.lines", "self.table",
+                   "self.examples"],
+         ensures={"line-counter-starts-at-zero (reported line numbers lie inside the text now parsed)": "self.line == 0",
+                  "state-machine-starts-at-the-initial-state": "self.state == State.INITIAL",
+                  "nothing-of-an-earlier-text-is-pending":
+                      "len(self.tags) == 0 and is_fresh(self.tags) and len(self.lines) == 0 and is_fresh(self.lines) and "
+                      "is_none(self.table) and is_none(self.statement) and is_none(self.examples) and is_none(self.feature) "
+                      "and is_none(self.rule) and is_none(self.scenario_container) and is_none(self.last_step_type) "
+                      "and is_none(self.multiline_terminator)",
+                  "file-name-taken-over": "self.filename == filename"},
+         doc="Context.execute_steps re-uses the feature's parser object for nested step texts; Parser.parse_steps and "
+             "_parse_loop both rely on reset() for the line counter")
